@@ -1,4 +1,4 @@
-import DiscretModel.Lemmas.LocalWrite
+import DiscretModel.Lemmas.LocalWriteFixtures
 import DiscretModel.Lemmas.RoomBuild
 /-
 C01 — Local writes are applied only with the room's rights at that time.
@@ -210,22 +210,6 @@ theorem C01_room_mutation_admins {mem : Option Room} {caller : Key} {m : MutSpec
 
 /-! ### non-vacuity: a concrete instance with rooms, members of every kind and rows -/
 
-/-- room 0: admin 1; group 0: all-rows right on entity 1 for member 2; group 1: own-rows right for member 3.
-    room 1: admin 1; group 0: all-rows right on everything for member 3 -/
-def room0 : Room :=
-  { id := 0, mdate := 1, admins := [⟨1, 1, true⟩],
-    auths := [{ id := 0, mdate := 1, users := [⟨2, 1, true⟩], rights := [Right.new 1 1 true true], userAdmins := [] },
-              { id := 1, mdate := 1, users := [⟨3, 1, true⟩], rights := [Right.new 1 0 true false], userAdmins := [] }] }
-def room1 : Room :=
-  { id := 1, mdate := 1, admins := [⟨1, 1, true⟩],
-    auths := [{ id := 0, mdate := 1, users := [⟨3, 1, true⟩], rights := [Right.new 1 0 true true], userAdmins := [] }] }
-def rooms01 : List Room := [room0, room1]
-
-/-- two rows of member 2 in room 0, row 1 referencing row 0 -/
-def db0 : Db :=
-  { rows := [⟨0, 1, some 0, 2, 2, 2, 1⟩, ⟨1, 1, some 0, 2, 2, 3, 2⟩],
-    edges := [⟨1, 0, 0, 2, 3⟩], nodeTombs := [], edgeTombs := [] }
-
 -- an authorised nested update: member 2 (all-rows) rewrites its row 0 under its unchanged row 1
 example : (mutate Defects.none rooms01 db0 2 4
     { handle := 1, isNew := false, entity := 1, room := none, val := none,
@@ -238,16 +222,6 @@ example : (mutate Defects.none rooms01
     { handle := 5, isNew := false, entity := 1, room := some 1, val := some 7, field := .none }).toBool = true := by decide
 
 /-! ### the code as it is (`Defects.asImplemented`): the full statement is false -/
-
-/-- the nested mutation `Person { id: 1, parents: [{ id: 0, name: 66 }] }` by the outsider 5 -/
-def nestedByOutsider : Mut :=
-  { handle := 1, isNew := false, entity := 1, room := none, val := none,
-    field := .arr 0 [{ handle := 0, isNew := false, entity := 1, room := none, val := some 66 }] }
-
-def authorOf (r : Except MErr Db) (id : Nat) : Option Key :=
-  match r with
-  | .ok db => (db.rows.find? (·.id = id)).map (·.author)
-  | .error _ => none
 
 /-- **C01_breaks_subNodesSkipped (#1).** Key 5 has no right in room 0 (`can … = false`); its direct update of
     row 0 is refused; nested under the unchanged row 1 the same update is accepted and row 0 is now signed
@@ -280,11 +254,6 @@ theorem C01_breaks_refDeletionResign :
     (match deleteRef { Defects.asImplemented with refDeletionResign := false } rooms01 db0 5 4 0 1 0 1 with
       | .ok db' => decide (db' = db0) | .error _ => false) = true := by
   decide
-
-/-- row 7 without room, referenced by row 1 of room 0 -/
-def db1 : Db :=
-  { rows := db0.rows ++ [⟨7, 1, none, 2, 3, 3, 4⟩], edges := db0.edges ++ [⟨1, 0, 7, 2, 3⟩],
-    nodeTombs := [], edgeTombs := [] }
 
 /-- **C01_breaks_incomingRefsUnchecked.** The outsider 5 deletes the room-less row 7: the reference stored at
     row 1 of room 0 — which key 5 may not edit — disappears with it. With the switch off the deletion is refused. -/
